@@ -6,9 +6,9 @@
 (* deviations; the templates themselves come from MC_Lang, MC_Closure and the    *)
 (* random term generator.                                                       *)
 (***************************************************************************)
-EXTENDS TLC, Json, FiniteSets, Naturals
+EXTENDS Backend, TLC, Json
 
-CONSTANTS Pairs
+CONSTANTS Pairs, Mode, MaxDeviations      \* Mode: "rows" (the matrix) or "directives" (Backend!DirectiveInstances)
 
 Factors == [int |-> {"small", "zero", "minus1", "i64max", "i64min", "u64max", "two64", "minus_two64", "i128max", "i128min", "two32"},
             bytes |-> {"len1", "len0", "len27", "len28", "len29", "len31", "len32", "len33", "len64"},
@@ -25,11 +25,12 @@ Default == [int |-> "small", bytes |-> "len1", addr |-> "key", utxo |-> "normal"
 FNames == DOMAIN Factors
 
 VARIABLE row
-Init == \/ row = Default
+RowInit ==
+        \/ row = Default
         \/ \E f \in FNames : \E v \in Factors[f] : row = [Default EXCEPT ![f] = v]
         \/ /\ Pairs
            /\ \E f, g \in FNames : f # g /\ \E v \in Factors[f], w \in Factors[g] : row = [Default EXCEPT ![f] = v, ![g] = w]
+Init == IF Mode = "directives" THEN row \in DirectiveInstances(MaxDeviations) ELSE RowInit
 Next == UNCHANGED row
-Deviations(r) == Cardinality({f \in FNames : r[f] # Default[f]})
 EmitCase == PrintT(<<"CASE", ToJson(row)>>)
 =============================================================================
